@@ -501,7 +501,7 @@ func c24Run(c *fx.Ctx) {
 			if !c.Take() {
 				continue
 			}
-			for _, d := range digitStrings(pf.alpha, c.Pick(3, 4)) {
+			for _, d := range digitStrings(pf.alpha, c.Pick(3, 5)) {
 				for _, du := range insertUnderscores(d) {
 					c24Number(c, sign+pf.p+du, "integer:"+map[string]string{"": "decimal"}[pf.p]+strings.ToLower(pf.p))
 				}
@@ -615,7 +615,7 @@ func c24Run(c *fx.Ctx) {
 			c24String(c, []strPiece{pieces[i]}, carrier)
 			for j := range pieces {
 				c24String(c, []strPiece{pieces[i], pieces[j]}, carrier)
-				if maxp >= 3 && carrier == "string" {
+				if maxp >= 3 {
 					for k := range pieces {
 						c24String(c, []strPiece{pieces[i], pieces[j], pieces[k]}, carrier)
 					}
